@@ -6,6 +6,7 @@
   are about what the extension constructs *evaluate to* in the model, for every document and context.
 -/
 import JP.Lemmas.Ext
+import JP.Lemmas.LexAlias
 namespace JP.Props.C13
 open JP JP.Query JP.Lemmas
 
@@ -77,7 +78,52 @@ theorem undefined_is_existence (env : Env) (cur : J) (key : Option Part) (q : Li
     evalExpr env cur key (.infix (.self q) .ne .undefined) = .val (.bool (isTruthy (evalExpr env cur key (.self q)))) :=
   Lemmas.undefined_singular env cur key q hs
 
+/-! ## Alias spellings (character level)
+
+`Lemmas.firstTok uw s` is the parser token the lexer model (`JP.Lex`, default identifier spellings) reads
+at the start of `s`. Each alias pair is read as the *same* token whatever follows at a word boundary, so
+the parser — and hence the compiled query — cannot tell the spellings apart. -/
+
+/-- **Translated**: the lexer's rule texts are the ones the character-level model was written for. -/
+theorem lex_source_ok :
+    Lex.sourceOK Generated.lexerRules Generated.lexerPatterns Generated.lexerInitPatterns = true := by decide
+
+/-- `and` ≡ `&&` (also directly before a parenthesis) -/
+theorem alias_and (uw : Char → Bool) (rest : Str) (hb : Lex.atBoundary uw rest = true) :
+    Lemmas.firstTok uw ("and".toList ++ rest) = some (.ok [.tok (.op .and)], rest) ∧
+    Lemmas.firstTok uw ("&&".toList ++ rest) = some (.ok [.tok (.op .and)], rest) := Lemmas.alias_and uw rest hb
+
+/-- `or` ≡ `||` -/
+theorem alias_or (uw : Char → Bool) (rest : Str) (hb : Lex.atBoundary uw rest = true) :
+    Lemmas.firstTok uw ("or".toList ++ rest) = some (.ok [.tok (.op .or)], rest) ∧
+    Lemmas.firstTok uw ("||".toList ++ rest) = some (.ok [.tok (.op .or)], rest) := Lemmas.alias_or uw rest hb
+
+/-- `not` ≡ `!` (where `!` is not the start of `!=`) -/
+theorem alias_not (uw : Char → Bool) (rest : Str) (hb : Lex.atBoundary uw rest = true) (hne : ∀ r, rest ≠ '=' :: r) :
+    Lemmas.firstTok uw ("not".toList ++ rest) = some (.ok [.tok .not], rest) ∧
+    Lemmas.firstTok uw ("!".toList ++ rest) = some (.ok [.tok .not], rest) := Lemmas.alias_not uw rest hb hne
+
+/-- `nil`, `null`, `none` and their capitalised forms are one token -/
+theorem alias_nil (uw : Char → Bool) (rest : Str) (hb : Lex.atBoundary uw rest = true) (hnp : ∀ r, rest ≠ '(' :: r)
+    (w : String) (hw : w ∈ ["nil", "Nil", "null", "Null", "none", "None"]) :
+    Lemmas.firstTok uw (w.toList ++ rest) = some (.ok [.tok .nil], rest) := Lemmas.alias_nil uw rest hb hnp w hw
+
+theorem alias_true (uw : Char → Bool) (rest : Str) (hb : Lex.atBoundary uw rest = true) (hnp : ∀ r, rest ≠ '(' :: r)
+    (w : String) (hw : w ∈ ["true", "True"]) :
+    Lemmas.firstTok uw (w.toList ++ rest) = some (.ok [.tok .true_], rest) := Lemmas.alias_true uw rest hb hnp w hw
+
+theorem alias_false (uw : Char → Bool) (rest : Str) (hb : Lex.atBoundary uw rest = true) (hnp : ∀ r, rest ≠ '(' :: r)
+    (w : String) (hw : w ∈ ["false", "False"]) :
+    Lemmas.firstTok uw (w.toList ++ rest) = some (.ok [.tok .false_], rest) := Lemmas.alias_false uw rest hb hnp w hw
+
+/-- `undefined` ≡ `missing` -/
+theorem alias_undefined (uw : Char → Bool) (rest : Str) (hb : Lex.atBoundary uw rest = true) (hnp : ∀ r, rest ≠ '(' :: r)
+    (w : String) (hw : w ∈ ["undefined", "missing"]) :
+    Lemmas.firstTok uw (w.toList ++ rest) = some (.ok [.tok .undefined], rest) := Lemmas.alias_undefined uw rest hb hnp w hw
+
 /-! ### Non-vacuity -/
+example : Lex.atBoundary (fun _ => false) "(@.a)]".toList = true := by decide
+
 example : isInfix "bc".toList "abcd".toList = true := by decide
 example : Rfc.singularSegs [.child [.name ['a']], .child [.index 0]] = true := by decide
 
